@@ -553,6 +553,11 @@ Theorem C09_no_unknown_breaking : unknown_breaking = [].
 Proof. vm_compute. reflexivity. Qed.
 Print Assumptions C09_no_unknown_breaking.
 
+(** the centipoint conversion of the catalogue is the translated body of pptx.util.Length.centipoints *)
+Theorem C09_centipoints_tied : forall z, py_centipoints_attr (PInt z) = Length__centipoints (PInt z).
+Proof. exact centipoints_tied. Qed.
+Print Assumptions C09_centipoints_tied.
+
 (** ---- save and re-open of any part: a concrete generic XML writer / reader ---- *)
 
 (** Save and re-open of ANY part.  Every getter of python-pptx is a function of the lxml element tree of a
